@@ -1270,9 +1270,10 @@ impl Property for C06 {
     }
     fn assumptions(&self) -> Vec<String> {
         vec![
-            "StdRng(seed) is deliberately NOT intercepted: the property quantifies over seeds, so the forest sees genuine ChaCha12(seed) output".into(),
+            "StdRng(seed) is NOT intercepted except in the twins-draw-faults batch: the property quantifies over seeds, so the forest sees genuine ChaCha12(seed) output; in that one batch a seeded subset of its words is replaced by boundary values, identically for every twin (the stream stays a pure function of the seed)".into(),
             "member trees are rebuilt from the forest's serde image with serde_json::from_value (no text round trip, f64 exact) and their real predict is called; bincode bytes decide bit-identity of twins".into(),
-            "rows with no out-of-bag tree are skipped (the statement says nothing about an empty aggregate)".into(),
+            "rows with no out-of-bag tree: the statement fixes no value for an empty aggregate, so none is demanded; what is demanded is that all such rows of one forest get the same value (an aggregate over no tree cannot depend on the row)".into(),
+            "regression tolerances are relative to the actual magnitude of the targets plus a few units of the smallest subnormal; the range clause additionally allows n^2 such units (the trees derive child means from rounded parent means)".into(),
             "cross-process agreement of the serialised model is checked by the runner's process-hop on a prefix of every batch (result digest)".into(),
             "sampling, not enumeration: a clean batch is evidence, not proof".into(),
         ]
@@ -1280,7 +1281,7 @@ impl Property for C06 {
     fn components(&self) -> Value {
         json!({
             "real": ["smartcore RandomForestClassifier / RandomForestRegressor (fit, predict, predict_oob, bootstrap)", "smartcore DecisionTreeClassifier / DecisionTreeRegressor (fit_weak_learner, predict)", "rand StdRng (ChaCha12) seeded by the forest's seed", "bincode / serde_json", "smartcore KMeans + KFold (history pollution only)"],
-            "stub": ["ambient ThreadRng word source (simulator tape) — must stay unread by the forest"]
+            "stub": ["ambient ThreadRng word source (simulator tape) — must stay unread by the forest", "in the twins-draw-faults batch only: a seeded subset of the forest's own StdRng output words is replaced by boundary values (seam S1b; the stream stays a pure function of seed and plan, the same plan for every twin)"]
         })
     }
 }
